@@ -179,7 +179,7 @@ def _combos(fname, f, H, tmp):
             continue
         names.append(pname)
         menus.append(m)
-    cap = CAP_DRAW if fname.startswith("draw") else CAP
+    cap = (CAP_DRAW if fname.startswith("draw") else CAP) * (1 if _TIER == "quick" else 5)
     out = []
     for vals in itertools.islice(itertools.product(*menus), 200):
         out.append(dict(zip(names, vals)))
@@ -355,6 +355,7 @@ def _calls_for(kind, name, H, tmp):
 
 _INPUTS = None
 _TMP = None
+_TIER = "quick"
 
 
 def _run_program(prog):
@@ -408,7 +409,8 @@ def _diff(a, b):
 
 
 def run(tier, ev):
-    global _INPUTS, _TMP
+    global _INPUTS, _TMP, _TIER
+    _TIER = tier
     _INPUTS = inputs(tier)
     _TMP = PV.tmpdir()
     progs = programs()
@@ -438,7 +440,8 @@ def run(tier, ev):
     ev.cov["programs_exercised"] = exercised
     ev.cov["inputs"] = len(_INPUTS)
     ev.cov["excluded"] = EXCLUDE
-    ev.cov["caps_hit"].append(f"at most {CAP} argument combinations per function ({CAP_DRAW} for draw functions), spread "
+    k = 1 if tier == "quick" else 5
+    ev.cov["caps_hit"].append(f"at most {CAP * k} argument combinations per function ({CAP_DRAW * k} for draw functions), spread "
                               "deterministically over the menu product")
     ev.cov["exhaustive"] = False
     ev.sample({"program": "xgi.adjacency_matrix", "kwargs": {"order": 1, "sparse": False}, "input": _INPUTS[6]})
